@@ -208,7 +208,10 @@ fn is_dyn(ex: &Expr) -> bool {
         Expr::Tuple(t) => t.elems.iter().any(is_dyn),
         Expr::Array(a) => a.elems.iter().any(is_dyn),
         Expr::Repeat(r) => is_dyn(&r.expr) || is_dyn(&r.len),
-        Expr::Struct(s) => s.fields.iter().any(|fv: &syn::FieldValue| is_dyn(&fv.expr)),
+        Expr::Struct(s) => {
+            s.fields.iter().any(|fv: &syn::FieldValue| is_dyn(&fv.expr))
+                || s.rest.as_deref().is_some_and(is_dyn)
+        }
 
         Expr::Cast(c) => is_dyn(&c.expr),
         Expr::Macro(m) => is_dyn_macro(&m.mac),
@@ -218,7 +221,8 @@ fn is_dyn(ex: &Expr) -> bool {
         Expr::Loop(l) => is_dyn_block(&l.body),
         Expr::While(w) => is_dyn(&w.cond) || is_dyn_block(&w.body),
         Expr::ForLoop(f) => is_dyn_pattern(&f.pat) || is_dyn(&f.expr) || is_dyn_block(&f.body),
-        Expr::Break(_) | Expr::Continue(_) => false,
+        Expr::Break(b) => b.expr.as_deref().is_some_and(is_dyn),
+        Expr::Continue(_) => false,
 
         Expr::Let(e) => is_dyn_pattern(&e.pat) || is_dyn(&e.expr),
 
@@ -250,9 +254,8 @@ fn is_dyn(ex: &Expr) -> bool {
 
 fn is_dyn_pattern(pat: &Pat) -> bool {
     match pat {
-        Pat::Wild(_) | Pat::Lit(_) | Pat::Path(_) | Pat::Rest(_) | Pat::Type(_) | Pat::Const(_) => {
-            false
-        }
+        Pat::Wild(_) | Pat::Lit(_) | Pat::Path(_) | Pat::Rest(_) | Pat::Const(_) => false,
+        Pat::Type(t) => is_dyn_pattern(&t.pat),
 
         Pat::Paren(p) => is_dyn_pattern(&p.pat),
         Pat::Or(o) => o.cases.iter().any(is_dyn_pattern),
@@ -263,7 +266,7 @@ fn is_dyn_pattern(pat: &Pat) -> bool {
             r.start.as_deref().is_some_and(is_dyn) || r.end.as_deref().is_some_and(is_dyn)
         }
 
-        Pat::Reference(r) => r.mutability.is_some(),
+        Pat::Reference(r) => r.mutability.is_some() || is_dyn_pattern(&r.pat),
         Pat::Ident(id) => {
             (id.by_ref.is_some() && id.mutability.is_some())
                 || id
